@@ -7,7 +7,7 @@ GP_REGS = ['rdi', 'rsi', 'rdx', 'rcx', 'r8', 'r9']
 N_SSE = 8
 
 # vocabulary: name -> (size, align, members [(scalar type, offset)]) ; scalars have members None
-SCALARS = {'char': 1, 'short': 2, 'int': 4, 'long': 8, 'uchar': 1, 'uint': 4, 'ulong': 8, 'ptr': 8, 'float': 4, 'double': 8, 'ldouble': 16, 'bool': 1}
+SCALARS = {'empty': 0, 'char': 1, 'short': 2, 'int': 4, 'long': 8, 'uchar': 1, 'uint': 4, 'ulong': 8, 'ptr': 8, 'float': 4, 'double': 8, 'ldouble': 16, 'bool': 1}
 STRUCTS = {
     's_c':   (1, 1, [('char', 0)]),
     's_c3':  (3, 1, [('char', 0), ('char', 1), ('char', 2)]),
@@ -27,6 +27,7 @@ STRUCTS = {
     's_lc':  (16, 8, [('long', 0), ('char', 8)]),
     's_dc':  (16, 8, [('double', 0), ('char', 8)]),
     's_L':   (16, 16, [('ldouble', 0)]),                       # class X87, X87UP: memory as an argument, %st(0) as a return value
+    's_Le':  (16, 16, [('ldouble', 0), ('empty', 16)]),         # a zero-size member (GNU empty struct / int t[0]) does not change the class
     's_l3':  (24, 8, [('long', 0), ('long', 8), ('long', 16)]),
     's_d3':  (24, 8, [('double', 0), ('double', 8), ('double', 16)]),
 }
@@ -45,6 +46,7 @@ def classify(t):
             return ['X87']
         return ['INTEGER']
     size, align, members = STRUCTS[t]
+    members = [(mt, off) for mt, off in members if mt != 'empty']
     if size > 16 or any(mt == 'ldouble' for mt, off in members):
         return ['MEMORY']      # psABI 3.2.3 (5): X87/X87UP eightbytes of an argument go to memory
     n = (size + 7) // 8
@@ -105,6 +107,16 @@ class Builder:
         prev = None
         for i, (mt, off) in enumerate(members):
             m = Obj('Member', lazy=False, label='%s.m%d' % (name, i))
+            if mt == 'empty':
+                ety = Obj('Type', lazy=False, label='T:empty')
+                ety.fields.update({'kind': self.E['TY_STRUCT'], 'size': 0, 'align': 1, 'members': 0, 'base': 0, 'is_unsigned': 0})
+                m.fields.update({'ty': ety, 'offset': off, 'idx': i, 'align': 1, 'next': 0, 'is_bitfield': 0, 'name': 0})
+                if prev is None:
+                    t.fields['members'] = m
+                else:
+                    prev.fields['next'] = m
+                prev = m
+                continue
             m.fields.update({'ty': self.T.make(it, mt), 'offset': off, 'idx': i, 'align': SCALARS[mt] if mt != 'ldouble' else 16})
             if prev is None:
                 t.fields['members'] = m
